@@ -56,8 +56,14 @@ func (r *RMRemoting) BranchRegister(param BranchRegisterParam) (int64, error) {
 		ApplicationData: []byte(param.ApplicationData),
 	}
 	resp, err := getty.GetGettyRemotingClient().SendSyncRequest(request)
-	if err != nil || resp == nil {
+	if err != nil {
 		log.Errorf("BranchRegister error: %v, res %v", err.Error(), resp)
+		return 0, err
+	}
+	if resp == nil {
+		// neither an error nor a response (err.Error() used to dereference nil here)
+		err = fmt.Errorf("BranchRegister got no response, xid %s", param.Xid)
+		log.Errorf("BranchRegister error: %v", err)
 		return 0, err
 	}
 	branchResp := resp.(message.BranchRegisterResponse)
